@@ -52,7 +52,15 @@ func c06(g *Gen) {
 	n := g.N(100, 2500)
 	for i := 0; i < n; i++ {
 		npk := 1 + g.R.Intn(4)
+		pgModule = "ex.test"
+		if i%5 == 4 {
+			// an import path that begins like the spelling of an anonymous type ("chan ...")
+			pgModule = "chantest.example"
+		}
 		prog, cls := g.genProgram(false, npk, 1+g.R.Intn(3)) // C06's fragment: non-generic declarations
+		if pgModule != "ex.test" {
+			cls = append(cls, "path-starts-like-anonymous-type")
+		}
 		chk, err := typeCheck(prog)
 		if err != nil {
 			panic(err)
@@ -188,6 +196,7 @@ func c06(g *Gen) {
 			g.Emit("C06.identity!", list(in2, atom(strings.Join(p2, "; "))), boolS(len(p2) == 0), "identity-closure", "lookups-before-load")
 		}
 		g.Emit("C06.identity!", list(in, atom(strings.Join(problems, "; "))), boolS(len(problems) == 0), "identity-closure")
+		pgModule = "ex.test"
 	}
 }
 
